@@ -679,10 +679,22 @@ def run_native(pid, n, scratch, tier, repo, seed):
     wd = tempfile.mkdtemp(prefix="n_%s_" % n["name"], dir=scratch)
     try:
         exe = os.path.join(wd, "nat")
-        cmd = ["cc", "-O1", "-g", "-DHAVE_CONFIG_H", "-I", os.path.join(scratch, "include"), "-I", os.path.join(scratch, "src"),
+        cmd = ["cc", "-O1", "-g", "-DHAVE_CONFIG_H", "-I", os.path.join(scratch, "plain"), "-I", os.path.join(scratch, "include"), "-I", os.path.join(scratch, "src"),
                "-I", os.path.join(scratch, "cfg"), "-I", os.path.join(VERIF, "include")]
         cmd += n.get("cflags", [])
-        cmd += [os.path.join(VERIF, n["source"])] + [os.path.join(scratch, s) for s in n.get("repo_sources", [])]
+        rs = n.get("repo_sources", [])
+        if isinstance(rs, str) and rs.startswith("ALL_EXCEPT:"):
+            excl = set(rs.split(":", 1)[1].split(","))
+            rs = []
+            for root, _d, files in os.walk(os.path.join(scratch, "src")):
+                for f in sorted(files):
+                    if f.endswith(".c") and f not in excl:
+                        rs.append(os.path.relpath(os.path.join(root, f), scratch))
+        cmd += ["-I", os.path.join(scratch, "plain")]
+        cmd += [os.path.join(VERIF, n["source"])]
+        for s in rs:
+            pl = os.path.join(scratch, "plain", os.path.basename(s))
+            cmd.append(pl if os.path.exists(pl) else os.path.join(scratch, s))
         cmd += ["-lm", "-o", exe]
         rc, so, se, _s, to = sh(cmd, timeout=300)
         if rc != 0:
